@@ -21,6 +21,7 @@ class CaseExcluded(Exception):
 
 
 CASE_WALL_LIMIT = 120.0
+_state = {}
 
 
 def quiet_logging():
@@ -170,6 +171,14 @@ def drive(ctx, engine_cls, n, min_steps=5, max_steps=60, offset=0, **kw):
         labels = sorted(eng.labels) + (["excluded-by-known-finding"] if excluded else [])
         ctx.case(key=[config, eng.trace], nontrivial=eng.nontrivial() and not ended, labels=labels,
                  sample={"config": config, "trace": eng.trace[:40], "observed": eng.summary()})
+        # an engine is one big reference cycle (client <-> transports <-> observers) that may hold megabytes of simulated traffic; the
+        # generational collector gets to such garbage rarely once many long-lived objects exist, so collect explicitly now and then
+        _state["cases"] = _state.get("cases", 0) + 1
+        if _state["cases"] % 8 == 0:
+            import gc
+
+            del eng
+            gc.collect()
 
     before = len(ctx.violations)
     hyp(ctx, st.data(), body, n, shrink=False, offset=offset)
